@@ -36,13 +36,14 @@ type E struct {
 	Prop string
 	ctr  int
 
-	root     map[string]*setting // path -> setting ("a", "s.x")
-	rootCfg  *ucfg.Config
-	envs     []map[string]*setting
-	envCfgs  []*ucfg.Config
-	res      []*resolver
-	opts     []ucfg.Option // PathSep, VarExp, Env..., Resolve...
-	baseOpts []ucfg.Option // PathSep, VarExp only (used for building)
+	root      map[string]*setting // path -> setting ("a", "s.x")
+	rootCfg   *ucfg.Config
+	envs      []map[string]*setting
+	envCfgs   []*ucfg.Config
+	res       []*resolver
+	opts      []ucfg.Option // PathSep, VarExp, Env..., Resolve...
+	optsNoSep []ucfg.Option // the same without PathSep
+	baseOpts  []ucfg.Option // PathSep, VarExp only (used for building)
 
 	// model evaluation state
 	active       map[string]bool
@@ -114,7 +115,18 @@ func (e *E) genName(depth int, noContainer bool) Name {
 		// the name is the value of another reference: ${${k}} — bind k to a name
 		return Name{Nested: &Ref{Name: Name{Path: "k"}}}
 	}
+	if t.Chance(1, 12, "name-through-setting") {
+		// a path that runs through another setting: ${a.x}, ${b.0}. When that setting is an
+		// expression the walk itself evaluates it (and may come back to where it started)
+		base := []string{"a", "b", "c", "d", "e"}[t.Choose(5, "through-base")]
+		return Name{Path: base + "." + []string{"x", "0", "b", "y"}[t.Choose(4, "through-sub")]}
+	}
 	return Name{Path: allNames[t.Choose(len(allNames)-2*boolInt(noContainer), "ref-name")]}
+}
+
+// throughName: a path running through one of the top-level settings a..e (genName).
+func throughName(path string) bool {
+	return len(path) >= 3 && path[1] == '.' && path[0] >= 'a' && path[0] <= 'e'
 }
 
 func boolInt(b bool) int {
@@ -396,6 +408,9 @@ func (e *E) referenced() []string {
 			walk(n.Nested)
 			return
 		}
+		if throughName(n.Path) {
+			return // only ever referenced: defining "a.x" next to "a" is another input
+		}
 		seen[n.Path] = true
 	}
 	walk = func(x Expr) {
@@ -464,6 +479,7 @@ func (e *E) build() {
 	for i := range e.res {
 		e.opts = append(e.opts, ucfg.Resolve(e.mkResolver(i)))
 	}
+	e.optsNoSep = append([]ucfg.Option{}, e.opts[1:]...)
 	if e.R.Trace {
 		e.R.Tracef("root = %v", describeLayer(e.root))
 		for i, l := range e.envs {
@@ -563,6 +579,13 @@ func (e *E) evalName(n Name) Outcome {
 		}
 		path = txt
 	}
+	if throughName(path) {
+		// a path through another setting (an expression, a primitive taken as a one-entry list,
+		// a name only the environment knows): what the walk yields is left open - that the read
+		// returns is demanded (C08)
+		e.R.Probe("varexp: reference path running through another setting")
+		return Outcome{E: EAny}
+	}
 	e.depth++
 	defer func() { e.depth-- }()
 	if e.depth > maxModelDepth {
@@ -578,6 +601,9 @@ func (e *E) evalName(n Name) Outcome {
 	}
 	e.active[path] = true
 	defer delete(e.active, path)
+
+	// a path through a setting that is an expression (or a primitive): what the walk yields is
+	// left open - only that the read returns (C08) is demanded
 
 	// 1. the owning root
 	if s, v := lookupLayer(e.root, path); s != nil || v != nil {
@@ -674,6 +700,9 @@ func (e *E) exists(n Name) (bool, EKind) {
 			return false, EOK
 		}
 		path = txt
+	}
+	if throughName(path) {
+		return false, EAny
 	}
 	if !e.active[path] {
 		if s, v := lookupLayer(e.root, path); s != nil || v != nil {
@@ -1043,11 +1072,18 @@ func (e *E) Read() {
 		via = " via child " + path[:i]
 		e.R.Probe("varexp: read through a child config")
 	}
+	// the separator belongs to the config as it was parsed: a read of a top-level setting that does
+	// not repeat the PathSep option sees the same values
+	ro := e.opts
+	if via == "" && !strings.Contains(name, ".") && t.Chance(1, 4, "read-without-pathsep") {
+		ro = e.optsNoSep
+		e.R.Probe("varexp: read without repeating the PathSep option")
+	}
 	switch kind {
 	case 0: // String
 		var s string
 		var err error
-		e.R.MustComplete("String", func() { s, err = cfg.String(name, -1, e.opts...) })
+		e.R.MustComplete("String", func() { s, err = cfg.String(name, -1, ro...) })
 		e.R.Tracef("String(%q)%s = %q, %v   [model: %s]", name, via, s, err, describeOutcome(o))
 		if o.E == EOK {
 			txt, ok := o.V.Text()
@@ -1088,22 +1124,22 @@ func (e *E) Read() {
 			case VInt:
 				op = "Int"
 				var i int64
-				e.R.MustComplete(op, func() { i, err = cfg.Int(name, -1, e.opts...) })
+				e.R.MustComplete(op, func() { i, err = cfg.Int(name, -1, ro...) })
 				got = strconv.FormatInt(i, 10)
 			case VBool:
 				op = "Bool"
 				var b bool
-				e.R.MustComplete(op, func() { b, err = cfg.Bool(name, -1, e.opts...) })
+				e.R.MustComplete(op, func() { b, err = cfg.Bool(name, -1, ro...) })
 				got = strconv.FormatBool(b)
 			case VFloat:
 				op = "Float"
 				var f float64
-				e.R.MustComplete(op, func() { f, err = cfg.Float(name, -1, e.opts...) })
+				e.R.MustComplete(op, func() { f, err = cfg.Float(name, -1, ro...) })
 				got = canonOf(f)
 			case VStr:
 				op = "String"
 				var s string
-				e.R.MustComplete(op, func() { s, err = cfg.String(name, -1, e.opts...) })
+				e.R.MustComplete(op, func() { s, err = cfg.String(name, -1, ro...) })
 				got = strconv.Quote(s)
 			default:
 				op = "Child"
@@ -1118,7 +1154,7 @@ func (e *E) Read() {
 			e.expect(op, path, o, got, err)
 		} else {
 			var err error
-			e.R.MustComplete("Int", func() { _, err = cfg.Int(name, -1, e.opts...) })
+			e.R.MustComplete("Int", func() { _, err = cfg.Int(name, -1, ro...) })
 			e.R.Tracef("Int(%q)%s = %v   [model: %s]", name, via, err, describeOutcome(o))
 			e.expect("Int", path, o, "?", err)
 		}
@@ -1153,7 +1189,7 @@ func (e *E) Read() {
 	case 4: // Has / CountField: must terminate; Has is true for a stored setting
 		var has bool
 		var err error
-		e.R.MustComplete("Has", func() { has, err = cfg.Has(name, -1, e.opts...) })
+		e.R.MustComplete("Has", func() { has, err = cfg.Has(name, -1, ro...) })
 		if err == nil && !has {
 			e.R.Fail("value", "Has", "Has(%q) = false for a stored setting", name)
 		}
@@ -1162,7 +1198,7 @@ func (e *E) Read() {
 			// evaluated is an error here as in every other read (C08: "every read operation")
 			var n int
 			var cerr error
-			e.R.MustComplete("CountField", func() { n, cerr = cfg.CountField(name, e.opts...) })
+			e.R.MustComplete("CountField", func() { n, cerr = cfg.CountField(name, ro...) })
 			e.R.Tracef("CountField(%q)%s = %d, %v   [model: %s]", name, via, n, cerr, describeOutcome(o))
 			switch {
 			case o.E == EOK && (o.V.K == VDict || o.V.K == VList):
